@@ -3,6 +3,7 @@
 #include "rt.hpp"
 
 #include <sys/mman.h>
+#include <sys/prctl.h>
 #include <sys/wait.h>
 #include <unistd.h>
 
@@ -31,6 +32,7 @@ constexpr uint32_t kLogCap = 24U << 20U;
 constexpr int kBlockAfter = 3;  // consecutive spin markers without any state change
 constexpr int kRoLimit = 40;    // consecutive read-only operations without any state change (loops without a spin hint)
 constexpr int kRoNoBranch = 10;
+int g_phase_of[64] = {};
 
 struct Step {
   uint8_t chosen;
@@ -50,6 +52,7 @@ Shm *g_shm = nullptr;
 
 struct TCtx {
   bool started = false, finished = false, body_done = false;
+  bool wantother = false;  // yielded inside a QUIESCE wait: let somebody else run if anybody can
   int spin = 0;           // consecutive unchanged spin markers
   int ro_run = 0;         // consecutive read-only operations while nothing changed
   uint64_t mark_gw = 0;   // global write count at the last marker / own write
@@ -295,6 +298,34 @@ void (*g_exit_op_hook)(const void *, int) = nullptr;
 void SetNoBranch(bool on) { g_nobranch = on; }
 void TrackMainThread(bool on) { g_track_main = on; }
 
+// every other thread of the phases that may run now has finished or is blocked (as of the latest state change):
+// lets a program say "hold on until the others have queued up behind me" without any preemption
+bool OthersQuiet()
+{
+  int me = tl_self;
+  if (me <= 0) return true;
+  for (int id = 1; id <= g_nthreads; ++id) {
+    if (id == me) continue;
+    TCtx &t = g_t[id];
+    if (t.finished) continue;
+    if (g_phase_of[id] > g_phase_of[me]) continue;
+    if (!(t.started && t.blocked && t.blocked_gw == g_gw)) return false;
+  }
+  return true;
+}
+
+// wait until the others are quiet: the waiting thread stays enabled but asks the scheduler to prefer anybody else
+void WaitOthersQuiet()
+{
+  int me = tl_self;
+  if (me <= 0) return;
+  int rounds = 0;
+  while (!OthersQuiet() && rounds++ < 4000) {
+    g_t[me].wantother = true;
+    YieldToController(me);
+  }
+}
+
 void BlockUntil(const std::function<bool()> &pred)
 {
   while (!pred()) verif::SpinHint(0);
@@ -382,6 +413,7 @@ const char *StatusName(uint32_t s, int sig)
   drv.Setup(prog);
   const int n = static_cast<int>(prog.threads.size());
   g_nthreads = n;
+  for (int id = 1; id <= n && id < 64; ++id) g_phase_of[id] = prog.phase[id - 1];
   if (g_nthreads > kMaxThreads) { fprintf(stderr, "too many threads\n"); _exit(3); }
   std::vector<std::thread> th;
   for (int id = 1; id <= g_nthreads; ++id) {
@@ -464,17 +496,18 @@ const char *StatusName(uint32_t s, int sig)
     } else {
       // default policy: keep running the same thread; when it cannot continue, the next enabled thread in
       // round-robin order (delay-bounded style: waiters queue up behind a holder with few deviations)
-      if (last != 0 && (enabled & (1U << last))) c = last;
+      if (last != 0 && (enabled & (1U << last)) && !g_t[last].wantother) c = last;
       else
         for (int k = 1; k <= g_nthreads; ++k) {
-          int id = (last + k - 1) % g_nthreads + 1;
+          int id = (last + k - 1) % g_nthreads + 1;      // starts at last + 1, reaches last itself at the end
           if (enabled & (1U << id)) { c = id; break; }
         }
     }
     Step &s = g_shm->steps[step];
     s.chosen = static_cast<uint8_t>(c);
     s.enabled = enabled;
-    s.flags = (g_t[c].spin > 0 || g_t[c].ro_run >= kRoNoBranch || g_nobranch) ? 1 : 0;
+    s.flags = (g_t[c].spin > 0 || g_t[c].ro_run >= kRoNoBranch || g_nobranch || g_t[c].wantother) ? 1 : 0;
+    g_t[c].wantother = false;
     g_shm->nsteps = step + 1;
     SetCurrent(c);
     WaitCurrent(0);
@@ -496,7 +529,10 @@ RunResult RunOnce(const Program &prog, Driver &drv, const std::vector<uint8_t> &
   g_shm->status = kRunning;
   pid_t pid = fork();
   if (pid < 0) { perror("fork"); exit(2); }
-  if (pid == 0) ChildMain(prog, drv, prefix, opt, rseed);
+  if (pid == 0) {
+    prctl(PR_SET_PDEATHSIG, SIGKILL);
+    ChildMain(prog, drv, prefix, opt, rseed);
+  }
   int st = 0;
   waitpid(pid, &st, 0);
   RunResult r;
@@ -507,6 +543,10 @@ RunResult RunOnce(const Program &prog, Driver &drv, const std::vector<uint8_t> &
   r.log.assign(g_shm->log, g_shm->loglen);
   return r;
 }
+
+long g_out_bytes = 0;
+constexpr long kMaxOutBytes = 600L * 1024 * 1024;  // per shard
+constexpr int kMaxRunaway = 6;                     // executions of one program that hit the step limit / filled the log
 
 std::string SchedString(const std::vector<Step> &steps)
 {
@@ -521,12 +561,21 @@ std::string SchedString(const std::vector<Step> &steps)
 void Emit(FILE *out, const Program &prog, long idx, const RunResult &r)
 {
   fprintf(out, "{\"e\":\"exec\",\"prog\":\"%s\",\"idx\":%ld}\n", prog.name.c_str(), idx);
-  fwrite(r.log.data(), 1, r.log.size(), out);
+  // an execution that ran into the step limit is a livelock: its verdict needs the calls and the end, not 60000 operations
+  if (r.status == kStepLimit && r.log.size() > 400000) {
+    size_t cut = r.log.rfind('\n', 200000);
+    fwrite(r.log.data(), 1, cut == std::string::npos ? 0 : cut + 1, out);
+    g_out_bytes += 200000;
+  } else {
+    fwrite(r.log.data(), 1, r.log.size(), out);
+    g_out_bytes += static_cast<long>(r.log.size());
+  }
   fprintf(out, "{\"e\":\"end\",\"status\":\"%s\",\"sig\":%d,\"steps\":%zu,\"sched\":\"%s\"}\n", StatusName(r.status, r.sig),
           r.sig, r.steps.size(), SchedString(r.steps).c_str());
 }
 
 struct Stats { long execs = 0, truncated = 0; };
+
 
 void Explore(const Program &prog, Driver &drv, const Options &opt, FILE *out, Stats &st)
 {
@@ -556,10 +605,12 @@ void Explore(const Program &prog, Driver &drv, const Options &opt, FILE *out, St
     return;
   }
   if (opt.mode == "random") {
-    for (long k = 0; k < opt.max_exec; ++k) {
+    int runaway = 0;
+    for (long k = 0; k < opt.max_exec && runaway < kMaxRunaway && g_out_bytes <= kMaxOutBytes; ++k) {
       auto r = RunOnce(prog, drv, {}, opt, static_cast<uint64_t>(opt.seed) * 1000003ULL + k * 7919ULL + std::hash<std::string>{}(prog.name));
       Emit(out, prog, idx++, r);
       st.execs++;
+      if (r.status == kStepLimit || r.status == kLogFull) ++runaway;
     }
     return;
   }
@@ -568,13 +619,15 @@ void Explore(const Program &prog, Driver &drv, const Options &opt, FILE *out, St
   // deviations has been run
   std::deque<std::vector<uint8_t>> queue;
   queue.emplace_back();
+  int runaway = 0;
   while (!queue.empty()) {
-    if (idx >= opt.max_exec) { st.truncated++; break; }
+    if (idx >= opt.max_exec || runaway >= kMaxRunaway || g_out_bytes > kMaxOutBytes) { st.truncated++; break; }
     auto prefix = std::move(queue.front());
     queue.pop_front();
     auto r = RunOnce(prog, drv, prefix, opt, 0);
     Emit(out, prog, idx++, r);
     st.execs++;
+    if (r.status == kStepLimit || r.status == kLogFull) ++runaway;
     const auto &s = r.steps;
     std::vector<int> pre(s.size() + 1, 0);
     for (size_t i = 0; i < s.size(); ++i) {
@@ -618,6 +671,7 @@ int Main(int argc, char **argv, Driver &drv)
     else if (a == "--shard") { auto s = next(); sscanf(s.c_str(), "%d/%d", &opt.shard, &opt.nshard); }
     else { fprintf(stderr, "unknown option %s\n", a.c_str()); return 2; }
   }
+  prctl(PR_SET_PDEATHSIG, SIGKILL);  // never outlive the check that started the exploration
   g_shm = static_cast<Shm *>(mmap(nullptr, sizeof(Shm), PROT_READ | PROT_WRITE, MAP_SHARED | MAP_ANONYMOUS, -1, 0));
   if (g_shm == MAP_FAILED) { perror("mmap"); return 2; }
   std::ifstream in(opt.programs);
